@@ -406,7 +406,11 @@ impl World {
                                 self.insts[i].alive = false;
                             }
                             if self.remove_pseudo_root && p != "/" {
-                                self.pseudo.remove(p);
+                                // a pseudo directory that still leads to other entries stays
+                                let prefix = format!("{}/", p);
+                                if !self.pseudo.keys().any(|k| k.starts_with(&prefix)) {
+                                    self.pseudo.remove(p);
+                                }
                             }
                         }
                     }
@@ -1076,3 +1080,409 @@ fn full_table(rep: &mut Report, prop: &str) {
 }
 
 pub fn _unused(_: Value) {}
+
+// ------------------------------------------------------------------------------------------------
+// C19: save / restore
+
+#[derive(Clone, Copy, Debug, PartialEq, Eq, Hash)]
+pub enum PAct {
+    Mount { path: usize, map: usize },
+    Umount { path: usize },
+    Init(usize),
+    Destroy,
+}
+
+const CAPS: [u64; 3] = [
+    0x0000_0000_ffff_ffff & !(1 << 31),
+    k::FUSE_ASYNC_READ | k::FUSE_BIG_WRITES,
+    k::FUSE_INIT_EXT | k::FUSE_HAS_INODE_DAX | k::FUSE_NO_OPEN_SUPPORT | k::FUSE_NO_OPENDIR_SUPPORT | k::FUSE_ATOMIC_O_TRUNC,
+];
+
+const PPATHS: [&str; 6] = ["/", "/a", "/a/b", "/c", "/n", "/n/m"];
+
+#[derive(Clone, Debug)]
+struct Live {
+    inst: usize,
+    slot: u8,
+    map: Option<M>,
+}
+
+/// A deterministic transcript of what a client can observe of `vfs`.
+fn transcript(vfs: &Arc<Vfs>, log: &Arc<Mutex<Vec<String>>>, cl: &mut Client, old_inodes: &[u64]) -> Vec<String> {
+    let srv = Server::new(vfs.clone());
+    let mut t: Vec<String> = Vec::new();
+    let take = |log: &Arc<Mutex<Vec<String>>>| -> String { std::mem::take(&mut *log.lock().unwrap()).join(";") };
+    take(log);
+    cl.creds(0, 0);
+    let o = vfs.options();
+    t.push(format!(
+        "options in={:#x} out={:#x} no_open={} no_opendir={} no_writeback={} killpriv_v2={} no_readdir={} seal_size={} id_mapping={:?} initialized={}",
+        o.in_opts.bits(), o.out_opts.bits(), o.no_open, o.no_opendir, o.no_writeback, o.killpriv_v2, o.no_readdir, o.seal_size, o.id_mapping, vfs.initialized()
+    ));
+    let mut found: Vec<u64> = vec![1];
+    for p in PPATHS.iter().skip(1).chain(["/z"].iter()) {
+        let mut cur = 1u64;
+        let mut line = format!("walk {}:", p);
+        for comp in p.split('/').filter(|c| !c.is_empty()) {
+            match cl.lookup(&srv, cur, comp.as_bytes()) {
+                Ok(e) => {
+                    line.push_str(&format!(" {}={:#x}(ino {:#x} uid {} gid {} mode {:o})", comp, e.nodeid, e.attr.ino, e.attr.uid, e.attr.gid, e.attr.mode));
+                    cur = e.nodeid;
+                    if !found.contains(&cur) {
+                        found.push(cur);
+                    }
+                }
+                Err(en) => {
+                    line.push_str(&format!(" {}=errno{}", comp, en));
+                    break;
+                }
+            }
+        }
+        line.push_str(&format!(" log[{}]", take(log)));
+        t.push(line);
+    }
+    let mut probe: Vec<u64> = found.clone();
+    for i in old_inodes {
+        if !probe.contains(i) {
+            probe.push(*i);
+        }
+    }
+    for (qi, n) in probe.iter().enumerate() {
+        let c = (IDS[qi % IDS.len()], IDS[(qi * 3 + 5) % IDS.len()]);
+        cl.creds(c.0, c.1);
+        let a = cl.getattr(&srv, *n, None);
+        t.push(format!(
+            "getattr {:#x} as ({},{}): {} log[{}]",
+            n,
+            c.0,
+            c.1,
+            match a {
+                Ok(a) => format!("ino {:#x} uid {} gid {}", a.ino, a.uid, a.gid),
+                Err(e) => format!("errno{}", e),
+            },
+            take(log)
+        ));
+        for plus in [false, true] {
+            let r = cl.readdir(&srv, *n, 0, 0, 65536, plus);
+            t.push(format!(
+                "readdir{} {:#x}: {} log[{}]",
+                if plus { "plus" } else { "" },
+                n,
+                match r {
+                    Ok(v) => {
+                        let mut names: Vec<String> = v
+                            .iter()
+                            .map(|d| {
+                                let e = d.entry.as_ref().map(|b| crate::client::parse_entry(b));
+                                format!("{}={:#x}{}", String::from_utf8_lossy(&d.name), d.ino, e.map(|e| format!("/{:#x}/{}", e.nodeid, e.attr.uid)).unwrap_or_default())
+                            })
+                            .collect();
+                        names.sort();
+                        names.join(",")
+                    }
+                    Err(e) => format!("errno{}", e),
+                },
+                take(log)
+            ));
+        }
+        cl.creds(0, 0);
+        let l = cl.lookup(&srv, *n, b"f3");
+        t.push(format!("lookup f3 under {:#x}: {} log[{}]", n, match l {
+            Ok(e) => format!("{:#x} uid {}", e.nodeid, e.attr.uid),
+            Err(e) => format!("errno{}", e),
+        }, take(log)));
+    }
+    // behaviour that depends on the negotiated options
+    let op = cl.open(&srv, 1, 0);
+    t.push(format!("open root: {:?} log[{}]", op.map(|x| x.1), take(log)));
+    let od = cl.opendir(&srv, 1, 0);
+    t.push(format!("opendir root: {:?} log[{}]", od.map(|x| x.1), take(log)));
+    t
+}
+
+/// Rebuilds the Vfs a prefix leads to (never saved or restored). Returns it with its live mounts.
+fn c19_replay(rpr: bool, global: Option<M>, seq: &[PAct], cl: &mut Client) -> (Arc<Vfs>, BTreeMap<String, Live>, Arc<Mutex<Vec<String>>>) {
+    let log = Arc::new(Mutex::new(Vec::new()));
+    let opts = VfsOptions { id_mapping: global.unwrap_or((0, 0, 0)), ..VfsOptions::default() };
+    let mut v = Vfs::new(opts);
+    if rpr {
+        v.set_remove_pseudo_root();
+    }
+    let orig = Arc::new(v);
+    let srv = Server::new(orig.clone());
+    let mut live: BTreeMap<String, Live> = BTreeMap::new();
+    let mut ninst = 0usize;
+    for a in seq {
+        match a {
+            PAct::Mount { path, map } => {
+                let id = ninst;
+                ninst += 1;
+                if let Ok(slot) = orig.mount_with_id_mapping(Box::new(Backend { inst: id, root: 7, log: log.clone() }), PPATHS[*path], MAPS[*map]) {
+                    live.insert(PPATHS[*path].to_string(), Live { inst: id, slot, map: MAPS[*map] });
+                }
+            }
+            PAct::Umount { path } => {
+                if orig.umount(PPATHS[*path]).is_ok() {
+                    live.remove(PPATHS[*path]);
+                }
+            }
+            PAct::Init(i) => {
+                cl.creds(0, 0);
+                let _ = cl.init(&srv, CAPS[*i]);
+            }
+            PAct::Destroy => {
+                let _ = cl.destroy(&srv);
+            }
+        }
+    }
+    log.lock().unwrap().clear();
+    (orig, live, log)
+}
+
+fn c19_seq(rep: &mut Report, cl: &mut Client, rpr: bool, global: Option<M>, seq: &[PAct], v1: bool) -> bool {
+    let log = Arc::new(Mutex::new(Vec::new()));
+    let mk = |global: Option<M>| {
+        let opts = VfsOptions { id_mapping: global.unwrap_or((0, 0, 0)), ..VfsOptions::default() };
+        let mut v = Vfs::new(opts);
+        if rpr {
+            v.set_remove_pseudo_root();
+        }
+        Arc::new(v)
+    };
+    let orig = mk(global);
+    let srv = Server::new(orig.clone());
+    let mut live: BTreeMap<String, Live> = BTreeMap::new();
+    let mut ninst = 0usize;
+    let mut old_inodes: Vec<u64> = Vec::new();
+    let mut problems: Vec<(String, String)> = Vec::new();
+    let mut requests = 0u64;
+    for (step, a) in seq.iter().enumerate() {
+        match a {
+            PAct::Mount { path, map } => {
+                let id = ninst;
+                ninst += 1;
+                if let Ok(slot) = orig.mount_with_id_mapping(Box::new(Backend { inst: id, root: 7, log: log.clone() }), PPATHS[*path], MAPS[*map]) {
+                    live.insert(PPATHS[*path].to_string(), Live { inst: id, slot, map: MAPS[*map] });
+                    old_inodes.push(((slot as u64) << 56) | 7);
+                    old_inodes.push(((slot as u64) << 56) | INO_F0);
+                }
+            }
+            PAct::Umount { path } => {
+                if orig.umount(PPATHS[*path]).is_ok() {
+                    live.remove(PPATHS[*path]);
+                }
+            }
+            PAct::Init(i) => {
+                cl.creds(0, 0);
+                let _ = cl.init(&srv, CAPS[*i]);
+            }
+            PAct::Destroy => {
+                let _ = cl.destroy(&srv);
+            }
+        }
+        log.lock().unwrap().clear();
+        // ---- save after this prefix, restore into a fresh Vfs, re-attach the backends
+        let saved = if v1 { orig.verif_save_to_bytes_at(1) } else { orig.save_to_bytes() };
+        let mut buf = match saved {
+            Ok(b) => b,
+            Err(e) => {
+                problems.push(("save-failed".into(), format!("after step {}: {:?}", step, e)));
+                break;
+            }
+        };
+        let fresh = mk(None);
+        let r = std::panic::catch_unwind(std::panic::AssertUnwindSafe(|| fresh.restore_from_bytes(&mut buf)));
+        match r {
+            Err(_) => {
+                problems.push(("restore-panic".into(), format!("restore_from_bytes panicked after step {}", step)));
+                break;
+            }
+            Ok(Err(e)) => {
+                problems.push(("restore-failed".into(), format!("after step {}: {:?}", step, e)));
+                break;
+            }
+            Ok(Ok(())) => {}
+        }
+        let log2 = Arc::new(Mutex::new(Vec::new()));
+        let mut reattach_ok = true;
+        for (p, l) in &live {
+            let r = std::panic::catch_unwind(std::panic::AssertUnwindSafe(|| fresh.restore_mount(Box::new(Backend { inst: l.inst, root: 7, log: log2.clone() }), l.slot, p)));
+            if !matches!(r, Ok(Ok(()))) {
+                problems.push(("restore-mount-failed".into(), format!("restore_mount({}, slot {}) after step {}: {:?}", p, l.slot, step, r.map(|x| x.map_err(|e| e.to_string())).map_err(|_| "panic"))));
+                reattach_ok = false;
+            }
+        }
+        if !reattach_ok {
+            break;
+        }
+        log2.lock().unwrap().clear();
+        let n0 = cl.nreq;
+        let t1 = transcript(&orig, &log, cl, &old_inodes);
+        let t2 = transcript(&fresh, &log2, cl, &old_inodes);
+        let skip_mapped = v1 && live.values().any(|l| l.map.is_some());
+        if !skip_mapped {
+            for (a, b) in t1.iter().zip(t2.iter()) {
+                if a != b {
+                    let class = a.split(|c: char| c == ' ' || c == ':').next().unwrap_or("line").to_string();
+                    // the restored instance was created without the global mapping: everything but that must agree
+                    problems.push((format!("differs:{}", class), format!("after step {} original says `{}`, restored says `{}`", step, a, b)));
+                    break;
+                }
+            }
+        }
+        // ---- one more action on both: indices and pseudo inode numbers handed out must agree.
+        // A disposable twin of the original is built by replaying the prefix (never saved or
+        // restored); its restored counterpart is made from the twin's own snapshot.
+        if problems.is_empty() {
+            for (np, label) in [("/fresh/x", "new-path"), ("/a", "existing-path"), ("/a/b/c", "nested-path")] {
+                let (twin, tlive, tlog) = c19_replay(rpr, global, &seq[..=step], cl);
+                let saved = if v1 { twin.verif_save_to_bytes_at(1) } else { twin.save_to_bytes() };
+                let mut b2 = match saved {
+                    Ok(b) => b,
+                    Err(_) => break,
+                };
+                let rest = mk(None);
+                let lg = Arc::new(Mutex::new(Vec::new()));
+                let res = std::panic::catch_unwind(std::panic::AssertUnwindSafe(|| -> Result<(Result<u8, String>, Result<u8, String>, Vec<String>), String> {
+                    rest.restore_from_bytes(&mut b2).map_err(|e| format!("{:?}", e))?;
+                    for (p, l) in &tlive {
+                        rest.restore_mount(Box::new(Backend { inst: l.inst, root: 7, log: lg.clone() }), l.slot, p).map_err(|e| e.to_string())?;
+                    }
+                    let mut extra: Vec<String> = Vec::new();
+                    // an umount of a live mount point behaves the same on both
+                    if let Some(p) = tlive.keys().next() {
+                        let u1 = twin.umount(p).map_err(|e| e.to_string());
+                        let u2 = rest.umount(p).map_err(|e| e.to_string());
+                        if u1 != u2 {
+                            extra.push(format!("umount {} gives {:?} without save/restore and {:?} after it", p, u1, u2));
+                        }
+                    }
+                    let i1 = twin.mount_with_id_mapping(Box::new(Backend { inst: 900, root: 7, log: tlog.clone() }), np, MAPS[1]).map_err(|e| e.to_string());
+                    let i2 = rest.mount_with_id_mapping(Box::new(Backend { inst: 900, root: 7, log: lg.clone() }), np, MAPS[1]).map_err(|e| e.to_string());
+                    Ok((i1, i2, extra))
+                }));
+                match res {
+                    Err(_) => {
+                        problems.push((format!("restored-instance-panic:{}", label), format!("after step {}: umount/mount at {} on the restored instance panicked", step, np)));
+                        break;
+                    }
+                    Ok(Err(e)) => {
+                        problems.push(("restore-failed".into(), format!("after step {}: {}", step, e)));
+                        break;
+                    }
+                    Ok(Ok((i1, i2, extra))) => {
+                        for e in extra {
+                            problems.push((format!("umount-differs:{}", label), format!("after step {}: {}", step, e)));
+                        }
+                        if i1 != i2 {
+                            problems.push((format!("next-index:{}", label), format!("after step {} a mount at {} gets index {:?} without save/restore and {:?} after it", step, np, i1, i2)));
+                        }
+                    }
+                }
+                let w = |v: &Arc<Vfs>, cl: &mut Client| -> String {
+                    let s = Server::new(v.clone());
+                    let mut cur = 1u64;
+                    let mut out = String::new();
+                    for comp in np.split('/').filter(|c| !c.is_empty()) {
+                        match cl.lookup(&s, cur, comp.as_bytes()) {
+                            Ok(e) => {
+                                out.push_str(&format!("{}={:#x}(uid {}) ", comp, e.nodeid, e.attr.uid));
+                                cur = e.nodeid;
+                            }
+                            Err(e) => {
+                                out.push_str(&format!("{}=errno{} ", comp, e));
+                                break;
+                            }
+                        }
+                    }
+                    out
+                };
+                let (w1, w2) = (w(&twin, cl), w(&rest, cl));
+                let mapped_v1 = v1; // a v1 snapshot cannot carry the per-mount mapping given to the extra mount? it is given after the restore, so it must agree too
+                let _ = mapped_v1;
+                // a version-1 snapshot cannot carry per-mount mappings: owner ids of such mounts legitimately differ
+                let v1_mapped = v1 && tlive.values().any(|l| l.map.is_some());
+                if w1 != w2 && !v1_mapped {
+                    problems.push((format!("next-pseudo-inode:{}", label), format!("after step {} the path {} resolves to `{}` without save/restore and `{}` after it", step, np, w1, w2)));
+                }
+                if !problems.is_empty() {
+                    break;
+                }
+            }
+        }
+        requests += cl.nreq - n0;
+        if !problems.is_empty() {
+            break;
+        }
+    }
+    rep.eval();
+    rep.transitions += requests + seq.len() as u64;
+    let lastk = format!("{:?}", seq.last().unwrap());
+    let lastk = lastk.split(|c| c == ' ' || c == '(').next().unwrap_or("").to_string();
+    rep.outcome(&format!("{}:{}:{}:{}", if v1 { "v1" } else { "v2" }, lastk, live.len(), if problems.is_empty() { "ok" } else { "VIOLATION" }));
+    rep.state_of(&(format!("{:?}", live.iter().map(|(p, l)| (p.clone(), l.slot, l.map)).collect::<Vec<_>>()), rpr, global, v1, seq.iter().filter(|a| matches!(a, PAct::Init(_) | PAct::Destroy)).map(|a| format!("{:?}", a)).collect::<Vec<_>>()));
+    rep.sample(|| json!({"sequence": format!("{:?}", seq), "remove_pseudo_root": rpr, "global_mapping": format!("{:?}", global), "snapshot_version": if v1 { 1 } else { 2 }, "live_mounts": live.len()}));
+    let cut = !problems.is_empty();
+    for (class, msg) in problems {
+        let sig = format!("C19/{}{}{}", if v1 { "v1/" } else { "" }, class, if global.is_some() && class.starts_with("differs") { "@global-mapping" } else { "" });
+        let seqs = format!("{:?}", seq);
+        rep.violation(&sig, &msg, || json!({"engine": "vfs-persist", "sequence": seqs, "remove_pseudo_root": rpr, "global_mapping": format!("{:?}", global), "v1": v1}));
+    }
+    cut
+}
+
+pub fn c19(args: &Args) -> Report {
+    let mut rep = args.report();
+    let thorough = args.thorough();
+    let depth = if thorough { 4 } else { 3 };
+    let mut alphabet: Vec<PAct> = Vec::new();
+    for p in 0..4 {
+        for m in 0..2 {
+            alphabet.push(PAct::Mount { path: p, map: m });
+        }
+    }
+    for p in 0..4 {
+        alphabet.push(PAct::Umount { path: p });
+    }
+    for i in 0..3 {
+        alphabet.push(PAct::Init(i));
+    }
+    alphabet.push(PAct::Destroy);
+    let mut cl = Client::new();
+    cl.cap = 1 << 17;
+    let mut idx = 0u64;
+    fn rec(rep: &mut Report, cl: &mut Client, rpr: bool, g: Option<M>, v1: bool, seq: &mut Vec<PAct>, alphabet: &[PAct], depth: usize) {
+        // a sequence is evaluated as a whole (every prefix is saved inside); extend only at full length
+        if seq.len() == depth {
+            c19_seq(rep, cl, rpr, g, seq, v1);
+            return;
+        }
+        for a in alphabet {
+            seq.push(*a);
+            rec(rep, cl, rpr, g, v1, seq, alphabet, depth);
+            seq.pop();
+        }
+    }
+    for rpr in [false, true] {
+        for g in [None, Some((0u32, 1000u32, 10u32))] {
+            for v1 in [false, true] {
+                for a in &alphabet {
+                    for b in &alphabet {
+                        if rep.mine(idx) {
+                            let mut seq = vec![*a, *b];
+                            rec(&mut rep, &mut cl, rpr, g, v1, &mut seq, &alphabet, depth);
+                        }
+                        idx += 1;
+                    }
+                    if rep.over_budget() {
+                        break;
+                    }
+                }
+            }
+        }
+    }
+    rep.set("depth", json!(depth));
+    rep.set("alphabet", json!(alphabet.iter().map(|a| format!("{:?}", a)).collect::<Vec<_>>()));
+    rep.set("two_step_units_all_shards", json!(idx));
+    rep
+}
